@@ -1023,6 +1023,15 @@ func (c *UConn) handleRenegotiation() error {
 	c.isHandshakeComplete.Store(false)
 
 	// [uTLS section begins]
+	if c.ClientHelloID == HelloGolang {
+		// crypto/tls makes a fresh ClientHello for every handshake. A hello
+		// built by Go TLS is never rebuilt by BuildHandshakeState once it is
+		// marked BuildByGoTLS, and the session controller remembers that
+		// loadSession already ran, so running clientHandshake again on the
+		// old state panics. Start the renegotiation from a clean slate.
+		c.clientHelloBuildStatus = NotBuilt
+		c.sessionController.resetForNewGoTLSHello()
+	}
 	if err = c.BuildHandshakeState(); err != nil {
 		return err
 	}
